@@ -22,7 +22,7 @@ for c in CHECKS:
         property_id=pid, quick_cmd="./check %s --tier quick" % pid, thorough_cmd="./check %s --tier thorough" % pid,
         evidence_file="evidence/%s.json" % pid, replay_cmd_template="./check %s --replay {path}" % pid,
         engine="evoverif",
-        level_claimed=dict(category="other", text=c["text"], design_ref=c.get("design_ref", "DESIGN.md section 5, " + pid)),
+        level_claimed=dict(category=c.get("category", "other"), text=c["text"], design_ref=c.get("design_ref", "DESIGN.md section 5, " + pid)),
         level_note=c["note"], technique=c.get("technique", TECH)))
 json.dump(m, open(os.path.join(HERE, "MANIFEST.json"), "w"), indent=1)
 import jsonschema
